@@ -81,6 +81,25 @@ func genC13(t *rapid.T) C13Case {
 		c.X = float64Spec(math.Float64frombits(c.Bits))
 	} else {
 		c.Kind = "ref"
+		if rapid.IntRange(0, 7).Draw(t, "leadtie") == 0 {
+			// rounding position exactly at (or just above) the leading digit of a value that fills its precision:
+			// 5, 50..0d, 49..9d, 51, 949, 95 ... printed with 'f' and as many fractional digits as put the
+			// position there
+			zl := strings.Repeat("0", rapid.IntRange(0, 25).Draw(t, "lt.z"))
+			nl := strings.Repeat("9", rapid.IntRange(0, 25).Draw(t, "lt.n"))
+			d := string(byte('1' + rapid.IntRange(0, 8).Draw(t, "lt.d")))
+			dig := rapid.SampledFrom([]string{"5", "5" + zl + d, "4" + nl + d, "51", "49", "9" + nl + "5", "95", "5" + zl + "5", "4" + nl + "9" + d}).Draw(t, "lt.dig")
+			c.X = h.Spec{F: "f", D: strings.TrimRight(dig, "0"), E: int64(rapid.IntRange(-30, 3).Draw(t, "lt.e")), Neg: rapid.Bool().Draw(t, "lt.neg"), M: h.GenMode(t, "lt.m")}
+			c.X.P = uint(len(c.X.D)) + uint(rapid.SampledFrom([]int{0, 0, 0, 1, 7}).Draw(t, "lt.p"))
+			c.Verb = rapid.SampledFrom([]string{"f", "F", "f", "e", "g"}).Draw(t, "lt.verb")
+			c.HasPrec = true
+			c.Prec = int(-c.X.E) + rapid.SampledFrom([]int{0, 0, 0, -1, 1}).Draw(t, "lt.off")
+			if c.Prec < 0 {
+				c.Prec = 0
+			}
+			c.Flags = genFlags(t)
+			return c
+		}
 		if rapid.IntRange(0, 2).Draw(t, "small") == 0 {
 			p := rapid.IntRange(1, 12).Draw(t, "rp")
 			c.X = h.Spec{F: "f", D: h.GenRoundDigits(t, "x", p), E: int64(rapid.IntRange(-45, 25).Draw(t, "xe")), Neg: rapid.Bool().Draw(t, "neg"), M: h.GenMode(t, "xm")}
